@@ -288,7 +288,7 @@ func (s *Sched) runThread(t *mthread) {
 	t.resume <- struct{}{}
 	select {
 	case <-s.yield:
-	case <-time.After(60 * time.Second):
+	case <-time.After(120 * time.Second):
 		s.Stalled = true
 		panic(schedStall{})
 	}
